@@ -132,7 +132,7 @@ class History(c01.History):
         tent = out.tentative if out is not None else 0
         failed = got != dl.TRUE
         self.ctx.note(nontrivial_key, failed and tent >= 1,
-                      classes=[f"kind-{s.get('kind', 'array')}", f"got-{got.split()[0]}", f"tentative-{min(tent, 3)}" if failed else "passed"],
+                      classes=(["inside-copied-contextvars-context"] if s.get("ctxrun") else []) + [f"kind-{s.get('kind', 'array')}", f"got-{got.split()[0]}", f"tentative-{min(tent, 3)}" if failed else "passed"],
                       sample={"kind": s.get("kind", "array"), "spec": spec_repr, "value": s.get("shape", s.get("tree")),
                               "verdict": got, "tentative_bindings_before_failure": tent, "bindings_before": self._before})
 
@@ -154,7 +154,14 @@ class History(c01.History):
         ok_td = ga.type_accepts(s["at"], s["vk"]) and dt.accepts(s["cat"], s["dtype"])
         self.assert_state("bindings-before", f"before {spec!r}")
         self._before = self.observe()[0]
-        got = verdict_any(value, ann)
+        if s.get("ctxrun"):
+            # the check runs inside a copy of the current contextvars.Context on the same thread (what an asyncio task created here
+            # would do): same thread, same jaxtyping context -- it binds, fails and rolls back exactly like a direct check
+            import contextvars
+
+            got = contextvars.copy_context().run(verdict_any, value, ann)
+        else:
+            got = verdict_any(value, ann)
         out = dl.match(meanings, s["shape"], self.m) if ok_td else None
         allowed = set(out.allowed) if out is not None else {dl.FALSE}
         if got not in allowed:
@@ -255,7 +262,12 @@ class History(c01.History):
         real = pt.build(desc, lambda p: np.zeros(p) if not isinstance(p, str) else p)
         self.assert_state("bindings-before", f"before PyTree[{spec!r},{sname!r}]")
         self._before = self.observe()[0]
-        got = verdict_any(real, ann)
+        if s.get("ctxrun"):
+            import contextvars
+
+            got = contextvars.copy_context().run(verdict_any, real, ann)
+        else:
+            got = verdict_any(real, ann)
         # ---- model
         from vf.models.ptcheck import model_pytree_check
 
@@ -347,6 +359,8 @@ def draw_step(data, hist: History):
     toks = data.draw(gd.legal_spec(bound=sorted(m.single), holes=hist.use_args, max_axes=5), label="spec")
     meanings = gd.meanings_of(toks)
     s = {"kind": kind, "tokens": [c01.tok_json(t) for t in toks]}
+    if kind in ("array", "pytree") and data.draw(st.integers(0, 4)) == 0:
+        s["ctxrun"] = True
     if kind == "array":
         cat, at, vk, dn, _, _ = data.draw(ga.typed_value_plan(mismatch_prob=0.05))
         shape, _ = data.draw(gd.shape_for(meanings, m, mutate_prob=0.6))
